@@ -21,6 +21,7 @@ import (
 	"fmt"
 	"log"
 	"reflect"
+	"sort"
 	"sync"
 	"sync/atomic"
 	"time"
@@ -253,28 +254,19 @@ func (sw *SlidingWindow) Add(data any) {
 	// landing in a triggered window still open for late updates. Drop the rest so
 	// sw.data cannot grow without bound under sustained out-of-order input.
 	if timeChar == types.EventTime && sw.watermark != nil && sw.watermark.IsEventTimeLate(eventTime) {
-		switch {
-		case sw.initialized && sw.currentSlot != nil && sw.currentSlot.Contains(eventTime):
-			// watermark advanced past the window start but the window has not
-			// triggered yet; the row triggers normally, keep it.
-		case sw.config.AllowedLateness > 0:
-			placed := false
-			wmNow := sw.watermark.GetCurrentWatermark()
-			for _, info := range sw.triggeredWindows {
-				// skip windows whose allowance has expired by the current watermark
-				// but which the trigger goroutine has not reaped yet
-				if info.slot.Contains(eventTime) && wmNow.Before(info.closeTime) {
-					sw.handleLateData(eventTime, sw.config.AllowedLateness)
-					placed = true
-					break
-				}
-			}
-			if !placed {
-				// beyond allowed lateness with no open triggered window: drop
-				sw.dropLastRow()
-			}
-		default:
-			// AllowedLateness == 0 (default) and not in the current window: drop
+		// In the current not-yet-triggered window the row triggers normally: keep it.
+		inCurrent := sw.initialized && sw.currentSlot != nil && sw.currentSlot.Contains(eventTime)
+		// Independently of that, with AllowedLateness > 0 every already triggered
+		// window that contains the row and is still inside its allowance is
+		// re-delivered with it (windows overlap: a late row can belong to the
+		// current window and to several fired ones at once).
+		updated := false
+		if sw.config.AllowedLateness > 0 {
+			updated = sw.handleLateData(eventTime, sw.config.AllowedLateness)
+		}
+		if !inCurrent && !updated {
+			// late, in no pending and in no open triggered window: drop
+			// (no unlock happened since the append, so it is still the last row)
 			sw.dropLastRow()
 		}
 	}
@@ -866,18 +858,36 @@ func (sw *SlidingWindow) getWindowKey(endTime time.Time) string {
 	return fmt.Sprintf("%d", endTime.UnixNano())
 }
 
-// handleLateData handles late data that arrives within allowedLateness
-func (sw *SlidingWindow) handleLateData(eventTime time.Time, allowedLateness time.Duration) {
-	// Find which triggered window this late data belongs to
+// handleLateData re-delivers every triggered window that contains eventTime and
+// whose allowance has not expired by the current watermark, in window order.
+// It reports whether at least one window was updated. Must be called with
+// sw.mu held; the lock is released around each delivery.
+func (sw *SlidingWindow) handleLateData(eventTime time.Time, allowedLateness time.Duration) bool {
 	wmNow := sw.watermark.GetCurrentWatermark()
-	for _, info := range sw.triggeredWindows {
+	type target struct {
+		key  string
+		info *triggeredWindowInfo
+	}
+	targets := make([]target, 0, 2)
+	for key, info := range sw.triggeredWindows {
 		if info.slot.Contains(eventTime) && wmNow.Before(info.closeTime) {
-			// This late data belongs to a triggered window that's still open
-			// Trigger window again with updated data (late update)
-			sw.triggerLateUpdateLocked(info.slot)
-			return
+			targets = append(targets, target{key, info})
 		}
 	}
+	sort.Slice(targets, func(i, j int) bool {
+		return targets[i].info.slot.Start.Before(*targets[j].info.slot.Start)
+	})
+	updated := false
+	for _, t := range targets {
+		// the lock was released during the previous delivery: the entry may have
+		// been reaped meanwhile
+		if cur, ok := sw.triggeredWindows[t.key]; !ok || cur != t.info {
+			continue
+		}
+		sw.triggerLateUpdateLocked(t.info.slot)
+		updated = true
+	}
+	return updated
 }
 
 // triggerLateUpdateLocked triggers a late update for a window (must be called with lock held)
